@@ -248,7 +248,7 @@ def owners(div):
     obs = div.get("obs") if isinstance(div.get("obs"), dict) else {}
     if kind == "threads":
         # real threads: C20 always; cross-talk or a race inside poll / drain also breaks what C09 / C16 promise for each caller
-        txt = " ".join(obs.get("fails") or []) + " " + (obs.get("tail") or "")
+        txt = " ".join(obs.get("fails") or []) + " " + " ".join(obs.get("races_in") or []) + " " + (obs.get("tail") or "")
         return ({"C20"} | ({"C09"} if ("poll-" in txt or "reproc_poll" in txt) else set()) | ({"C16"} if (" drain " in txt or "reproc_drain" in txt) else set())
                 | ({"C13"} if ("start-rejected-valid" in txt or "start-accepted-invalid" in txt or "parse_options" in txt) else set())
                 | ({"C12"} if "mask-after-start" in txt else set()))
@@ -831,14 +831,18 @@ def fam_threads(tier, outdir):
     env = dict(os.environ); env["TSAN_OPTIONS"] = "exitcode=66 halt_on_error=0 second_deadlock_stack=1"
     try:
         r = subprocess.run([exe, str(nt), str(cyc)], capture_output=True, text=True, env=env, timeout=240 if tier == "quick" else 1800)
-    except subprocess.TimeoutExpired:
-        r = None
+    except subprocess.TimeoutExpired as e:
+        # a hang is a failure too; what was printed before it says where (partial output of the killed run)
+        dec = lambda b: b.decode("utf-8", "replace") if isinstance(b, bytes) else (b or "")
+        r = subprocess.CompletedProcess(e.cmd, None, dec(e.stdout) + "\nFAIL thread=-1 hang (no result within the time limit) 0 0\n", dec(e.stderr))
     bad = []
-    if r is None or r.returncode != 0:
-        out = ("(timeout)" if r is None else (r.stdout[-1500:] + r.stderr[-2500:]))
-        fails = [l for l in (r.stdout.splitlines() if r else []) if l.startswith("FAIL")]
+    if r.returncode != 0:
+        out = r.stdout[-1500:] + r.stderr[-2500:]
+        fails = [l for l in r.stdout.splitlines() if l.startswith("FAIL")]
+        races = sorted({l.split(" in ")[-1].strip() for l in r.stderr.splitlines() if l.startswith("SUMMARY: ThreadSanitizer") and " in " in l})
         bad.append({"ok": 0, "kind": "threads", "fn": "threads", "call": {"fn": "threads", "threads": nt, "cycles": cyc},
-                    "obs": {"exit": None if r is None else r.returncode, "fails": fails[:5], "tsan": "WARNING: ThreadSanitizer" in out, "tail": out[-1200:]},
+                    "obs": {"exit": r.returncode, "fails": sorted(set(" ".join(f.split()[2:4]) for f in fails))[:8], "tsan": "WARNING: ThreadSanitizer" in r.stderr,
+                            "races_in": races[:10], "tail": out[-1200:]},
                     "script": {"cmd": [exe, str(nt), str(cyc)]}})
     n = nt * cyc + 1
     return {"family": "threads", "tlc": {"states": 0, "transitions": 0, "depth": 0}, "scripts": n, "replayed": n, "ok": n if not bad else 0, "bad": bad,
